@@ -96,7 +96,8 @@ PROPS = {
                       "F(clamp a) with F' = S on the knot range (FITPACK is zero outside). Floats as reals.",
     },
     "C17": {
-        "targets": ["spowtd.simulate_rise:compute_rise_curve", "spowtd.specific_yield:SpecificYield.integrate",
+        "targets": ["spowtd.simulate_rise:compute_rise_curve", "spowtd.simulate_rise:compute_rise_curve#mean",
+                    "lemma:shifted_sum", "spowtd.specific_yield:SpecificYield.integrate",
                     "spowtd.spline:Spline.integrate", "lemma:telescoping"],
         "bounded": [{"run": "bounded.simulate_checks:run_C17",
                      "what": "bounded stand-in for the mean clause, refinement / monotonicity corollaries and the tabulated output of "
@@ -107,7 +108,8 @@ PROPS = {
         "level_note": "Assumed: numpy cumsum / mean as in libspec; the FITPACK contracts of C14; yaml.dump round trip (bounded).",
     },
     "C18": {
-        "targets": ["spowtd.simulate_recession:compute_recession_curve", "spowtd.specific_yield:SpecificYield.__call__",
+        "targets": ["spowtd.simulate_recession:compute_recession_curve", "lemma:shifted_sum",
+                    "spowtd.specific_yield:SpecificYield.__call__",
                     "spowtd.spline:Spline.__call__", "lemma:telescoping"],
         "bounded": [{"run": "bounded.simulate_checks:run_C18",
                      "what": "bounded stand-in for the corollaries (direction, reversal, water balance at zero curvature), the mean, "
@@ -179,7 +181,8 @@ PROPS = {
                       "for the 'same group after permutation' clause.",
     },
     "C09": {
-        "targets": ["spowtd.rise:compute_rise_offsets", "spowtd.rise:compute_rise_offsets#reference"],
+        "targets": ["spowtd.rise:compute_rise_offsets", "spowtd.rise:compute_rise_offsets#reference",
+                    "spowtd.recession:compute_offsets", "spowtd.recession:compute_offsets#reference"],
         "bounded": [{"run": "bounded.curves_checks:run_C09",
                      "what": "native sweep through the real rise / recession steps: grid steps {1, 0.1, 0.3, 2.5, ...} x multiples of the "
                              "step across the curve (accepted, curve zero there), off-grid references (refused), no reference (highest "
@@ -188,12 +191,13 @@ PROPS = {
                       "of the fit's mapping; with one, a returning run has the reference within tolerance of (origin index x step) and the "
                       "refusal branch is only reached for non-multiples; the stored offsets are the fitted offsets minus the mean (offset + "
                       "crossing) of the origin level. The floating-point side (every decimal multiple accepted) is a bounded native sweep.",
-        "level_note": "get_series_time_offsets enters through an assumed contract (validated bounded under C05/C08/C13). recession.py's "
-                      "compute_offsets has the same structure; in this revision it is covered by the bounded sweep. 'Zero at the reference' "
+        "level_note": "get_series_time_offsets enters through an assumed contract (validated bounded under C05/C08/C13); the same "
+                      "obligations are discharged for recession.py's compute_offsets. 'Zero at the reference' "
                       "follows from 'offsets minus the mean over that level' by the algebra mean(x - mean(x)) = 0 (not an SMT obligation).",
     },
     "C13": {
-        "targets": ["spowtd.rise:compute_rise_offsets", "spowtd.zeta_grid:populate_zeta_grid", "spowtd.regrid:regrid"],
+        "targets": ["spowtd.rise:compute_rise_offsets", "spowtd.recession:compute_offsets",
+                    "spowtd.zeta_grid:populate_zeta_grid", "spowtd.regrid:regrid"],
         "bounded": [{"run": "bounded.curves_checks:run_C13",
                      "what": "bounded stand-in at table level (real workflow on planted datasets): every rising / recession interval row is a "
                              "matched rise / an interstorm interval, its crossings equal an independent computation from its own samples, "
@@ -220,7 +224,8 @@ PROPS = {
         "level_note": "The Lean file is compiled in the thorough tier here (it is compiled in the quick tier of C05).",
     },
     "C07": {
-        "targets": ["spowtd.classify:classify_interstorms", "spowtd.classify:match_all_storms"],
+        "targets": ["spowtd.classify:classify_interstorms", "spowtd.classify:match_all_storms",
+                    "spowtd.load:generate_timestamped_rows"],
         "bounded": [{"run": "bounded.curves_checks:run_C07",
                      "what": "bounded stand-in: the whole workflow on datasets shifted by multiples of the time step (30- and 20-minute "
                              "grids, with an increment exactly at threshold x step) and declared in another fixed-offset zone: flags, "
@@ -281,5 +286,24 @@ PROPS = {
                       "missing-ET refusal are reached exactly in those situations and before any write of the function. The 'already "
                       "populated' guard of load_data is a bounded stand-in.",
         "level_note": "Correctness of pytz's tables for all IANA zones is the dependency's; validated on sampled zones only.",
+    },
+    "C19": {
+        "not_applicable": "generated files are text assembled with str.format / ljust / join, which the pyvc value model treats as "
+                          "opaque strings: no contract within reach states or decides 'counts, names and order agree across three "
+                          "text files and a YAML dump, and every printed float reads back through columns 3:24'. The bounded stand-in "
+                          "bounded/pest_checks.py (./check C19) exists and reports two recorded findings, but it is not a "
+                          "contract-based proof and is therefore not claimed.",
+        "targets": [],
+        "bounded": [{"run": "bounded.pest_checks:run_C19",
+                     "what": "the real pestfiles functions and simulate commands on master-curve tables of several sizes, both "
+                             "parameterisations and two knot counts; the files are read the way PEST reads them (control-data counts, "
+                             "parameter / observation lines, placeholders, `l1 [e]3:24` applied to the simulation output, float read-back)"}],
+        "category": "fault_enumeration",
+        "level_text": "Bounded only: generated files are text assembled with str.format / ljust / join, which pyvc models opaquely, so no "
+                      "obligation about their content can be discharged in this revision; the property is checked on enumerated table sizes "
+                      "and parameter sets by interpreting the three files as PEST does. Two clause-level defects are recorded as known "
+                      "findings (parameter-name case, 22-column extraction window).",
+        "level_note": "PEST's reading of the files is taken from its manual (NPAR / NOBS fields, primary markers, l1, fixed columns).",
+        "technique": "bounded stand-in (native enumeration) - contract-based proof not applicable to opaque string formatting in this revision",
     },
 }
